@@ -21,7 +21,7 @@ theorem SI.heap {G : St → Prop} {s s' : St} (h : SI R RE E G U s)
     (hobj : ∀ r, s.fe.solver = some r → r < s'.objs.length ∧ (objAt s' r).frames = (objAt s r).frames) :
     SI R RE E (fun _ => True) U s' := by
   obtain ⟨f1, f2, f3, f4, f5, f6⟩ := mcFields_eq hmc
-  refine ⟨⟨⟨?_, ?_, ?_, ?_⟩, ?_, ⟨?_, ?_⟩, ?_, ⟨s', trivial, WStep.refl s'⟩⟩, h.mc.of_fields f1 f2 f3 f4 f5 f6, ?_⟩
+  refine ⟨⟨⟨?_, ?_, ?_⟩, ?_, ⟨?_, ?_⟩, ?_, ⟨s', trivial, WStep.refl s'⟩, ?_⟩, h.mc.of_fields f1 f2 f3 f4 f5 f6, ?_⟩
   · rw [hcons, htoadd]; exact h.base.core.toAdd_sub
   · intro r hr
     rw [hsol] at hr
@@ -32,19 +32,25 @@ theorem SI.heap {G : St → Prop} {s s' : St} (h : SI R RE E G U s)
     rw [has, htoadd, hcons]
     exact hsem a
   · rw [hre]; exact h.base.core.noReuse
-  · rw [htrack]; exact h.base.core.untracked
   · rw [hcons]; exact h.base.equiv
   · rw [hcons]; exact h.base.dinv.consR
   · rw [hhash, hwo]; exact h.base.dinv.seen
   · rw [hcons, hvar]; exact h.base.vars
+  · intro ht r hr z hz
+    rw [htrack] at ht
+    rw [hsol] at hr
+    obtain ⟨_, hfr⟩ := hobj r hr
+    have has : (objAt s' r).asserted = (objAt s r).asserted := by simp only [Z3Obj.asserted, hfr]
+    rw [has] at hz
+    exact h.base.areg ht r hr z hz
   · rw [SCInv, hcs]; exact h.sc
 
 theorem SI.unmark {s s' : St} (h : SI R RE E (· = s) U s') : SI R RE E (fun _ => True) U s' ∧ WStep s s' := by
   obtain ⟨s0, rfl, hw⟩ := h.base.ghost
-  exact ⟨⟨⟨h.base.core, h.base.equiv, h.base.dinv, h.base.vars, ⟨s', trivial, WStep.refl s'⟩⟩, h.mc, h.sc⟩, hw⟩
+  exact ⟨⟨⟨h.base.core, h.base.equiv, h.base.dinv, h.base.vars, ⟨s', trivial, WStep.refl s'⟩, h.base.areg⟩, h.mc, h.sc⟩, hw⟩
 
 theorem SI.mark {s : St} (h : SI R RE E (fun _ => True) U s) : SI R RE E (· = s) U s :=
-  ⟨⟨h.base.core, h.base.equiv, h.base.dinv, h.base.vars, ⟨s, rfl, WStep.refl s⟩⟩, h.mc, h.sc⟩
+  ⟨⟨h.base.core, h.base.equiv, h.base.dinv, h.base.vars, ⟨s, rfl, WStep.refl s⟩, h.base.areg⟩, h.mc, h.sc⟩
 
 /-! ### the world -/
 
@@ -114,14 +120,16 @@ theorem tinvS_step {Us : List (List Con)} {w : World} (hw : TInvS R RE E Us w) {
       · rw [getD_set_ne _ _ _ _ _ (Ne.symm hbi)] at hrb
         exact hw.share a b r ha hb hab hra hrb
 
-theorem tinvS_init (R : Con → Prop) (RE : Exp → Prop) (E : Env) : TInvS R RE E [[]] (World.init false false) := by
+theorem tinvS_init (R : Con → Prop) (RE : Exp → Prop) (E : Env) (track : Bool) :
+    TInvS R RE E [[]] (World.init track false) := by
   refine ⟨rfl, ?_, ?_⟩
   · intro i hi
     have : i = 0 := by simp [World.init] at hi; exact hi
     subst this
-    exact ⟨⟨⟨fun _ _ => rfl, fun r hr => by simp [stOfI, World.init] at hr, rfl, rfl⟩, fun _ => rfl,
+    exact ⟨⟨⟨fun _ _ => rfl, fun r hr => by simp [stOfI, World.init] at hr, rfl⟩, fun _ => rfl,
       ⟨fun c hc => by simp [stOfI, World.init] at hc, fun c _ hi => by simp [stOfI, World.init] at hi⟩,
-      fun c hc => by simp [stOfI, World.init] at hc, ⟨_, trivial, WStep.refl _⟩⟩,
+      fun c hc => by simp [stOfI, World.init] at hc, ⟨_, trivial, WStep.refl _⟩,
+      fun _ r hr => by simp [stOfI, World.init] at hr⟩,
       mcInv_init RE E _ _ rfl rfl rfl rfl rfl rfl, ⟨fun hc => by simp [stOfI, World.init] at hc, fun hc => by simp [stOfI, World.init] at hc⟩⟩
   · intro i j r hi hj hij
     simp [World.init] at hi hj
@@ -228,17 +236,16 @@ theorem mem_foldl_ids (cs : List Con) (acc : List Nat) (i : Nat) :
 /-- a pickle round trip keeps the invariant: the Z3 object is dropped, the model cache starts empty, the rest survives -/
 theorem si_pickle {G : St → Prop} {U : List Con} (hR : Reg R E) {s : St} (h : SI R RE E G U s) (c : Frontend)
     (hcons : c.constraints = s.fe.constraints) (htoadd : c.toAdd = []) (hsol : c.solver = none)
-    (htrack : c.track = s.fe.track) (hhash : c.hashes = s.fe.hashes)
+    (_htrack : c.track = s.fe.track) (hhash : c.hashes = s.fe.hashes)
     (hwo : c.woAnnot = s.fe.constraints.foldl (fun acc c => listInsert acc c.id) []) (hfin : c.finalized = s.fe.finalized)
     (hvar : c.variables = s.fe.variables) (hm : c.models = []) (h1 : c.evalExh = []) (h2 : c.maxExh = [])
     (h3 : c.minExh = []) (h4 : c.maxSExh = []) (h5 : c.minSExh = []) (hcs : c.cachedSat = s.fe.cachedSat) :
     SI R RE E G U { s with fe := c } := by
-  refine ⟨⟨⟨?_, ?_, h.base.core.noReuse, ?_⟩, ?_, ⟨?_, ?_⟩, ?_, ?_⟩, mcInv_init RE E U c hm h1 h2 h3 h4 h5, ?_⟩
+  refine ⟨⟨⟨?_, ?_, h.base.core.noReuse⟩, ?_, ⟨?_, ?_⟩, ?_, ?_, ?_⟩, mcInv_init RE E U c hm h1 h2 h3 h4 h5, ?_⟩
   · intro a _; show holdsAll c.toAdd a = true; rw [htoadd]; rfl
   · intro r hr
     have : c.solver = some r := hr
     rw [hsol] at this; cases this
-  · show c.track = false; rw [htrack]; exact h.base.core.untracked
   · intro a; show holdsAll c.constraints a = _; rw [hcons]; exact h.base.equiv a
   · intro x hx
     have : x ∈ c.constraints := hx
@@ -261,6 +268,9 @@ theorem si_pickle {G : St → Prop} {U : List Con} (hR : Reg R E) {s : St} (h : 
   · obtain ⟨s0, hg, hw⟩ := h.base.ghost
     refine ⟨s0, hg, hw.trans ⟨Nat.le_refl _, Or.inr (Or.inl hsol), fun _ _ _ => rfl, rfl, fun hf => ?_⟩⟩
     show c.finalized = true; rw [hfin]; exact hf
+  · intro _ r hr
+    have : c.solver = some r := hr
+    rw [hsol] at this; cases this
   · show SCInv U c
     rw [SCInv, hcs]; exact h.sc
 
